@@ -156,6 +156,91 @@ theorem not_type_safe_no_check (env : Env) (orc : Nat → Val → Raw) (p : Path
     (construct env orc false .absent p fvs) = ([], .instance) := by
   cases p <;> simp [construct, cfg_paths, postInit]
 
+/-! ## the three paths resolve forward references in the frame of *their caller* -/
+
+theorem cfg_context : callerStartDepth = 2 ∧ callerWalkStopsAtLastFrame = true ∧
+    callerSkipTests = ["code_in_skip", "module_is_dataclasses", "holds_instance"] ∧ callerSkipCodes = ["copy_with", "deep_copy_with"] ∧
+    callerInstanceIsSelf = true ∧ postInitPassesCallerContext = true ∧ callerContextMerge = ["globals", "locals"] ∧
+    validateContextDepth = 2 ∧ validateContextOnlyWhenNone = true ∧
+    contextMergeOrder = ["caller", "globals", "own"] ∧ getContextMerge = ["globals", "locals"] := by decide
+
+theorem internal_of_holds (f : Frame) (h : f.holdsInstance = true) : f.internal = true := by
+  simp [Frame.internal, cfg_context, h]
+
+/-- the walk passes every internal frame and stops at the first one that is not -/
+theorem walk_skips (xs : List Frame) (c : Frame) (outer : List Frame) (i : Nat) (hx : ∀ f ∈ xs, f.internal = true)
+    (hc : c.internal = false) : walk (xs ++ c :: outer) i = i + xs.length := by
+  induction xs generalizing i with
+  | nil => cases outer <;> simp [walk, hc]
+  | cons x xs ih =>
+    have hx0 : x.internal = true := hx x (by simp)
+    cases hrest : xs ++ c :: outer with
+    | nil => simp at hrest
+    | cons y r =>
+      have := ih (i + 1) (fun f hf => hx f (by simp [hf]))
+      rw [hrest] at this
+      simp only [List.cons_append, hrest, walk, hx0, ↓reduceIte, this, List.length_cons]
+      omega
+
+theorem pathFrames_internal (p : Path) : ∀ f ∈ pathFrames p, f.internal = true := by
+  have hr : replaceFrames = ["replace"] := by decide
+  cases p <;> simp [pathFrames, hr, Frame.internal, cfg_context]
+
+/-- **the frame is the caller's** - however many wrappers, user `__post_init__` methods and `__init__` frames work on the
+    instance (any `chain`), on every path, whatever called the caller -/
+theorem caller_frame_selected (p : Path) (chain : List Frame) (caller : Frame) (outer : List Frame)
+    (hchain : ∀ f ∈ chain, f.holdsInstance = true) (hcaller : caller.internal = false) :
+    seesCaller p chain caller outer = true := by
+  have hw := walk_skips (chain ++ pathFrames p) caller outer 1
+    (by intro f hf
+        rcases List.mem_append.1 hf with h | h
+        · exact internal_of_holds f (hchain f h)
+        · exact pathFrames_internal p f h) hcaller
+  simp only [seesCaller, selectFrame, stackOf, callerIndex, cfg_context, List.cons_append, List.nil_append, List.drop_succ_cons,
+    List.drop_zero, Nat.add_one_sub_one, beq_iff_eq]
+  simp only [List.append_assoc, List.singleton_append] at hw ⊢
+  rw [hw]; simp [List.length_append]; omega
+
+/-- an ordinary function - not one of the library's, not in `dataclasses`, not holding the instance - is not internal -/
+theorem ordinary_caller_not_internal (n : String) : ({ name := n } : Frame).internal = false := by
+  simp [Frame.internal, cfg_context]
+
+theorem user_validate_sees_caller : userValidateSeesCaller = true := by decide
+
+/-- … so the context is the one of the call site: module names first, then the caller's -/
+theorem withCaller_eq_atCallSite (env : Env) (locals : List (NameId × ClsId)) : env.withCaller locals true = env.atCallSite locals := by
+  simp [Env.withCaller, Env.atCallSite, cfg_context]
+
+/-- **C10 with the frame made explicit.**  For a dataclass whose annotations refer to names of the calling function (a class
+    defined inside a function, forward references to function-local classes), whatever the depth of the decorated hierarchy:
+    through every path an instance is obtained iff every field value conforms *at the call site*. -/
+theorem instance_iff_fields_conform_at_call_site (env : Env) (locals : List (NameId × ClsId)) (chains : List (List Frame))
+    (caller : Frame) (outer : List Frame) (hchains : ∀ ch ∈ chains, ∀ f ∈ ch, f.holdsInstance = true)
+    (hcaller : caller.internal = false) (orc : Nat → Val → Raw) (horc : ∀ k v, orc k v ≠ .raisedTV)
+    (hw : WfEnv (env.atCallSite locals)) (up : UserPost) (hup : ∀ e, up ≠ .raises e) (p : Path) (fvs : List (Field × Val))
+    (hok : FieldsOk (env.atCallSite locals) fvs) :
+    ((constructIn env locals chains caller outer orc true up p fvs).2 = .instance ↔ allConform (env.atCallSite locals) fvs = true) ∧
+    ((constructIn env locals chains caller outer orc true up p fvs).2 ≠ .instance →
+      (constructIn env locals chains caller outer orc true up p fvs).2 = .pedTypeCheck) := by
+  have hall : (chains.all fun ch => seesCaller p ch caller outer) = true := by
+    rw [List.all_eq_true]; intro ch hch; exact caller_frame_selected p ch caller outer (hchains ch hch) hcaller
+  unfold constructIn
+  rw [hall, withCaller_eq_atCallSite]
+  exact instance_iff_fields_conform _ orc horc hw up hup p fvs hok
+
+theorem validate_types_iff_at_call_site (env : Env) (locals : List (NameId × ClsId)) (orc : Nat → Val → Raw)
+    (hw : WfEnv (env.atCallSite locals)) (fvs : List (Field × Val)) (hok : FieldsOk (env.atCallSite locals) fvs) :
+    validateCallIn env locals orc fvs = .instance ↔ allConform (env.atCallSite locals) fvs = true := by
+  unfold validateCallIn
+  rw [user_validate_sees_caller, withCaller_eq_atCallSite]
+  exact validate_types_iff _ orc hw fvs hok
+
+-- non-vacuity: a decorated subclass inheriting the wrapped __post_init__ (two wrapper frames + __init__), copy_with, called from `f`
+example : seesCaller .copyWith [{ name := "new_post_init", code := "new_post_init", holdsInstance := true }, { name := "__init__", holdsInstance := true }]
+    { name := "f" } [{ name := "<module>" }] = true := by decide
+-- the pre-repair frame arithmetic (depth 3, one bump by name) picked `replace` here: with only the name tests the walk stops early
+example : walk [({ name := "replace" } : Frame), { name := "copy_with" }, { name := "f" }] 2 = 2 := by decide
+
 -- non-vacuity
 example : (construct envW (fun _ _ => .raisedOther) true .runs .copyWith
     [(⟨1, .cls 2⟩, .lit (.int 1)), (⟨2, .seq .typing .list (.cls 3)⟩, .coll 4 [.lit (.str [97])])]) = ([.post, .validate], .instance) := by decide
